@@ -16,6 +16,10 @@ fn r(n: i64, d: i64) -> BigRational {
 }
 
 /// x on scale `from` expressed in kelvin
+fn tables_scale(s: &str) -> BigRational {
+    crate::tables::parse_scale(s)
+}
+
 fn to_k(x: &BigRational, from: char) -> BigRational {
     match from {
         'K' => x.clone(),
@@ -206,6 +210,17 @@ impl Prop for C09 {
                 }
             }
         }
+        // ... and when the rest of the compound is converted in the same cast (a prefix or a
+        // conversion factor on the other unit): the factor of that part exactly once, no offset
+        for (a, b) in pairs {
+            for x in ["5", "-3.5"] {
+                for (u1, u2, k, kinv) in [("km", "m", "1000", "1/1000"), ("m", "km", "1/1000", "1000"), ("mi", "km", "1609344/1000000", "1000000/1609344"), ("kJ", "J", "1000", "1/1000"), ("min", "s", "60", "1/60"), ("ft", "in", "12", "1/12")] {
+                    sink(Case::with("mixed", format!("{x} {u1}/{a} to {u2}/{b}"), serde_json::json!({"x": x, "a": a, "b": b, "n": -1, "k": k})));
+                    sink(Case::with("mixed", format!("{x} {u1}*{a} to {u2}*{b}"), serde_json::json!({"x": x, "a": a, "b": b, "n": 1, "k": k})));
+                    sink(Case::with("mixed", format!("{x} {a}/{u1} to {b}/{u2}"), serde_json::json!({"x": x, "a": a, "b": b, "n": 1, "k": kinv})));
+                }
+            }
+        }
         // products/quotients of two temperatures must not apply offsets either
         for x in ["1", "20"] {
             for (a, b) in pairs {
@@ -349,7 +364,9 @@ impl Prop for C09 {
                     Res::Ok { value, unit, .. } => {
                         let interval = |s: char| if s == 'F' { r(5, 9) } else { r(1, 1) };
                         let f = crate::obs::rpow(&(interval(a) / interval(b)), n).unwrap();
-                        let want = &x * f;
+                        // the other units of the compound may be converted as well (factor `k`)
+                        let k = case.data.get("k").and_then(|k| k.as_str()).map(tables_scale).unwrap_or_else(|| r(1, 1));
+                        let want = &x * f * k;
                         if *value == want {
                             // must also carry the target shape
                             let _ = units::has_affine(unit);
